@@ -232,6 +232,11 @@ def run(ctx):
             ctx.check(found > 0 and not probs, "C04.b", f"{cname}.{mname}:grow-then-reshape", f"{found} growth site(s) on the paths, each reshaped at once on the right axis",
                       " ; ".join(sorted(set(probs))[:2]) or "no growth site found", fi.where)
 
+    # what was recorded before the growth moves with its interval: contents AND squared errors, missed weights coerced like fills
+    from rules import c10, c13
+    c10.sibling_transfer(ctx, "C04.b", m.cls("HistogramBase").methods["_apply_bin_map"], "HistogramBase._apply_bin_map")
+    c13.check_fill_coercion(ctx, "C04.b", m)
+
     # ---- C04.c the shift map is the growth; growth amounts -------------------------------------------------------------------
     ctx.rule("C04.c", "returned shift = amount _times_min was lowered; batch growth keeps the left-side shift; ceil/floor growth amounts", 7)
     fs = FW.methods.get("_force_bin_existence_single")
